@@ -22,7 +22,9 @@ def run(ctx):
     quick = ctx.tier == "quick"
     ctx.rule = ("sys_loop: two applications following the documented protocol to the letter (xcm_await, poll the xcm fd, then the "
                 "intended call or xcm_finish) on all seven transports: non-blocking connect/accept/TLS handshake driven by "
-                "readiness only, messages of 1..65535 bytes (partial writes, back-pressure), then close; link-time wrappers make "
+                "readiness only, xcm_await called only when the awaited condition changes, messages of 1..65535 bytes (partial writes, "
+                "back-pressure), then close; SPEC: the sender keeps condition 0, sends on speculation, awaits SENDABLE only after EAGAIN "
+                "and withdraws it before sending again, so its last accepted send is followed by no XCM call; link-time wrappers make "
                 "send()/recv() below XCM (and below OpenSSL's BIO) return EAGAIN or short counts in 0/30/60 per cent of the calls "
                 "(seeded); a watchdog reports a stall when work is owed and no fd has been readable for 4 s; the blocking forms "
                 "(xcm_connect, xcm_accept, xcm_send, xcm_receive) run in threads under the same faults with a join timeout. "
@@ -47,6 +49,9 @@ def run(ctx):
         for rate in ((0, 40) if quick else (0, 30, 60)):
             for sd in seeds:
                 cmds.append("LOOP %s %d %d %d" % (proto, 24 if quick else 64, rate, ctx.seed * 1000 + sd * 10 + rate))
+        for rate in ((0, 40) if quick else (0, 30, 60)):
+            for sd in seeds:
+                cmds.append("SPEC %s %d %d %d" % (proto, 24 if quick else 64, rate, ctx.seed * 1000 + sd * 10 + rate + 2))
         for rate in ((40,) if quick else (0, 40)):
             for sd in seeds:
                 cmds.append("BLOCK %s %d %d %d" % (proto, 16 if quick else 48, rate, ctx.seed * 1000 + sd * 10 + rate + 1))
@@ -64,9 +69,9 @@ def run(ctx):
         ctx.count("%s.%s" % (w[0].lower(), w[1]))
         ctx.count("injected_eagain", int(f.get("eagain", 0)))
         ctx.count("injected_short", int(f.get("short", 0)))
-        if w[0] == "LOOP":
+        if w[0] in ("LOOP", "SPEC"):
             if f["stall"] != "0":
-                ctx.violation("sys_loop:monitor:stall:%s" % w[1],
+                ctx.violation("sys_loop:monitor:stall:%s%s" % (w[1], ":spec" if w[0] == "SPEC" else ""),
                               "the event loop stalled on %s: work was owed but no xcm fd became readable (%s)" % (w[1], o), rep)
             elif f["failed"] != "-" and f["complete"] == "1" and f["bad"] == "0" and f["failed"].endswith("receive") and w[1] in ("tls", "btls", "utls"):
                 # everything was delivered; the peer's close arrived as a non-orderly TLS close (its close_notify was refused by an
